@@ -89,6 +89,18 @@ pub fn exec(sim: &mut Sim, ev: &str, a: &Value) -> Result<(), String> {
                 return Err("no event message".into());
             }
         }
+        "DropEvS" => {
+            let ch = sim.sev_ch(s(a, "t"));
+            if !sim.drop_s2c(s(a, "c"), ch, a["pos"].as_u64().unwrap_or(0) as usize) {
+                return Err("no event message".into());
+            }
+        }
+        "DropEvC" => {
+            let ch = sim.cev_ch(s(a, "t"));
+            if !sim.drop_c2s(s(a, "c"), ch, a["pos"].as_u64().unwrap_or(0) as usize) {
+                return Err("no event message".into());
+            }
+        }
         "DeliverEvC" => {
             let ch = sim.cev_ch(s(a, "t"));
             if !sim.deliver_c2s(s(a, "c"), ch, a["pos"].as_u64().unwrap_or(0) as usize) {
@@ -407,6 +419,37 @@ pub fn random_run<W: Write>(tr: &mut Trace<W>, cfg: Cfg, prof: &Profile, seed: u
                 tr.step(&mut sim, "CliFrame", json!({"c": c, "dt": 0}));
                 continue;
             }
+            if rng.chance(1, 10) {
+                // unreliable channels: several events pile up, arrive out of order, one is lost
+                let server_side = rng.chance(1, 2);
+                for _ in 0..3 {
+                    if server_side {
+                        tr.step(&mut sim, "EmitS", json!({"t": "SUnr", "id": next_id, "mode": "all", "to": "none", "e": "none"}));
+                        tr.step(&mut sim, "SrvFrame", json!({"tick": true, "dt": 0}));
+                    } else {
+                        tr.step(&mut sim, "EmitC", json!({"c": c, "t": "CUnr", "id": next_id, "e": "none"}));
+                        tr.step(&mut sim, "CliFrame", json!({"c": c, "dt": 0}));
+                    }
+                    next_id += 1;
+                }
+                let (del, drop, t, dir, ch) = if server_side {
+                    ("DeliverEvS", "DropEvS", "SUnr", "s2c", sim.sev_ch("SUnr"))
+                } else {
+                    ("DeliverEvC", "DropEvC", "CUnr", "c2s", sim.cev_ch("CUnr"))
+                };
+                let mut lost = false;
+                while sim.channel_len(&c, dir, ch) > 0 {
+                    let n = sim.channel_len(&c, dir, ch);
+                    let pos = if rng.chance(2, 3) { n - 1 } else { rng.below(n) };
+                    let ev = if !lost && rng.chance(1, 3) { lost = true; drop } else { del };
+                    tr.step(&mut sim, ev, json!({"c": c, "t": t, "pos": pos}));
+                    if rng.chance(1, 3) {
+                        let frame = if server_side { json!({"c": c, "dt": 0}) } else { json!({"tick": false, "dt": 0}) };
+                        tr.step(&mut sim, if server_side { "CliFrame" } else { "SrvFrame" }, frame);
+                    }
+                }
+                continue;
+            }
             match rng.below(10) {
                 0..=3 => {
                     let t = *rng.pick(&crate::events::SEV);
@@ -415,21 +458,36 @@ pub fn random_run<W: Write>(tr: &mut Trace<W>, cfg: Cfg, prof: &Profile, seed: u
                         2 => ("except", c.clone()),
                         _ => ("direct", c.clone()),
                     };
-                    let e = if t == "SMap" && e == "none" { ents[0].clone() } else if t == "SOrd" || t == "SInd" { "none".into() } else { e };
+                    let e = if t == "SMap" && e == "none" { ents[0].clone() } else if t == "SOrd" || t == "SInd" || t == "SUnr" { "none".into() } else { e };
                     tr.step(&mut sim, "EmitS", json!({"t": t, "id": next_id, "mode": mode, "to": to, "e": e}));
                 }
                 4..=5 => {
                     let t = *rng.pick(&crate::events::CEV);
-                    let e = if t == "CMap" && e == "none" { ents[0].clone() } else if t == "COrd" { "none".into() } else { e };
+                    let e = if t == "CMap" && e == "none" { ents[0].clone() } else if t == "COrd" || t == "CUnr" { "none".into() } else { e };
                     tr.step(&mut sim, "EmitC", json!({"c": c, "t": t, "id": next_id, "e": e}));
                 }
                 6..=7 => {
                     let t = *rng.pick(&crate::events::SEV);
-                    tr.step(&mut sim, "DeliverEvS", json!({"c": c, "t": t, "pos": 0}));
+                    // an unreliable channel delivers in any order and may lose messages
+                    let n = sim.channel_len(&c, "s2c", sim.sev_ch(t));
+                    if t == "SUnr" && n > 0 {
+                        let pos = rng.below(n);
+                        let ev = if rng.chance(1, 4) { "DropEvS" } else { "DeliverEvS" };
+                        tr.step(&mut sim, ev, json!({"c": c, "t": t, "pos": pos}));
+                    } else {
+                        tr.step(&mut sim, "DeliverEvS", json!({"c": c, "t": t, "pos": 0}));
+                    }
                 }
                 8 => {
                     let t = *rng.pick(&crate::events::CEV);
-                    tr.step(&mut sim, "DeliverEvC", json!({"c": c, "t": t, "pos": 0}));
+                    let n = sim.channel_len(&c, "c2s", sim.cev_ch(t));
+                    if t == "CUnr" && n > 0 {
+                        let pos = rng.below(n);
+                        let ev = if rng.chance(1, 4) { "DropEvC" } else { "DeliverEvC" };
+                        tr.step(&mut sim, ev, json!({"c": c, "t": t, "pos": pos}));
+                    } else {
+                        tr.step(&mut sim, "DeliverEvC", json!({"c": c, "t": t, "pos": 0}));
+                    }
                 }
                 _ => {
                     if sim.cfg.auth == "custom" {
